@@ -78,6 +78,9 @@ class Headers:
                 flags = 'r+b' if os.path.exists(self.path) else 'w+b'
                 with open(self.path, flags) as header_file:
                     header_file.write(self.io.getbuffer())
+                    # the chain may have become shorter (fork to a shorter branch, repair): the file is rewritten
+                    # in place, so cut off what an older, longer chain left behind the stored one
+                    header_file.truncate()
             await asyncio.get_event_loop().run_in_executor(None, _close)
             self.io.close()
             self.io = None
